@@ -4,6 +4,7 @@
   End-to-end completion after healing is a tied simulation claim (checks/C09.py), not a theorem.
 -/
 import Nice.Proofs.PTcpRun
+import Nice.Props.C09Window
 namespace Nice.Props.C09
 open Nice.PTcp Nice.Gen Nice.Proofs.PTcp
 
